@@ -180,8 +180,62 @@ def hbuff_prologue():
     return guarded("hbuff-prologue", run)
 
 
+def device_functions_per_occurrence():
+    """a device function is read once per occurrence in the source: two identical occurrences in the operands of one
+    statement are two runtime calls (the device state can change between them)"""
+    import re
+    from coco.b09.compiler import convert
+
+    def run():
+        res = []
+        cases = {
+            "SOUND BUTTON(1),BUTTON(1)": ("ecb_button", 2), "HSET(BUTTON(0)*10,BUTTON(0)*5)": ("ecb_button", 2), 'A$=INKEY$+INKEY$': ("inkey", 2),
+            "POKE POINT(1,2),POINT(1,2)": ("ecb_point", 2), "A=BUTTON(0)+BUTTON(0)+BUTTON(0)": ("ecb_button", 3), "HCOLOR INT(A),INT(A)": ("ecb_int", 2),
+            "PRINT BUTTON(0);BUTTON(0)": ("ecb_button", 2), "A=BUTTON(0):B=BUTTON(0)": ("ecb_button", 2),
+        }
+        for src, (proc, n) in cases.items():
+            try:
+                text = convert("10 %s\n" % src, add_standard_prefix=False)
+                got = len(re.findall(r"(?i)\brun %s\(" % proc, text))
+            except Exception as e:  # noqa
+                text, got = "%s: %s" % (type(e).__name__, str(e)[:100]), -1
+            res.append(ob("device-functions/%s" % src, got == n, "%d calls of %s" % (n, proc), dict(calls=got, text=text.strip())))
+        return res
+    return guarded("device-functions", run)
+
+
+def parser_builds_a_tree():
+    """every occurrence in the source has its own node: the parser's result is a tree, no node object stands in two places
+    (passes modify nodes in place - DATA items, hoisting targets - and a shared node would change every place at once)"""
+    from coco.b09.grammar import grammar
+    from coco.b09.parser import BasicVisitor
+    from coco.b09 import elements as E2
+
+    def run():
+        src = '10 A=5:B=5:C$="X":D$="X":SOUND 5,5:POKE 5,5\n20 DATA 5,,5,X,X\n30 READ A,A:PRINT A;A;5;5:IF A=5 THEN 10 ELSE 10\n40 A(5)=A(5)+&H5+&H5:HSET(5,5):FOR I=5 TO 5 STEP 5:NEXT I,I\n'
+        prog = BasicVisitor().visit(grammar.parse(src))
+        seen, shared = {}, []
+
+        def walk(o, path):
+            if isinstance(o, (list, tuple)):
+                for k, x in enumerate(o):
+                    walk(x, path + "[%d]" % k)
+                return
+            if not isinstance(o, E2.AbstractBasicConstruct) and type(o).__module__ != "coco.b09.prog":
+                return
+            if id(o) in seen:
+                shared.append("%s %r at %s and %s" % (type(o).__name__, getattr(o, "basic09_text", lambda i: "?")(0)[:30] if hasattr(o, "basic09_text") else "", seen[id(o)], path))
+                return
+            seen[id(o)] = path
+            for k, v in sorted(vars(o).items()) if hasattr(o, "__dict__") else []:
+                walk(v, path + "." + k.lstrip("_"))
+        walk(prog, "prog")
+        return [ob("parser/one node per occurrence", not shared and len(seen) > 60, "no node object is reachable along two paths", shared[:4] or "%d nodes, all distinct" % len(seen))]
+    return guarded("parser/tree", run)
+
+
 def obligations():
     # defaults such as float(display.hfore) are read from a record the runtime fills by reference: the value that reaches the
     # library is the documented default only if program and library lay the record out identically (shared with C14)
     from tx.p_c14 import record_types
-    return statement_rows() + hbuff_prologue() + record_types()
+    return statement_rows() + hbuff_prologue() + record_types() + device_functions_per_occurrence() + parser_builds_a_tree()
